@@ -77,6 +77,11 @@ def check(events, candles, warm, fast, aborted=False, want=('c02',)):
         k = ev['k']
         if k == 'submit':
             book.on_submit(ev)
+            if fast and any(pc_.get('at_minute_end') for pc_ in pending_call.values()):
+                # submitted by a callback of a MARKET order that the fast simulator executes at the END of a minute inside a
+                # chunk: the order exists from that minute's end on (it cannot fill in that minute, only in later ones)
+                book.o[ev['o']]['at_minute_end'] = True
+                c('orders_submitted_at_a_minute_end_inside_a_chunk')
             if ev['type'] == 'MARKET' and not ev.get('in_liq'):
                 market_open[ev['o']] = ev
                 cur = (ev.get('pos') or {}).get('cur')
@@ -97,6 +102,23 @@ def check(events, candles, warm, fast, aborted=False, want=('c02',)):
             continue
         if k == 'exec_call':
             pending_call[ev['o']] = ev
+            o_ = book.o.get(ev['o'])
+            if fast and o_ is not None and o_['type'] == 'MARKET' and ev.get('in_match') and o_['symbol'] in chunk \
+                    and ev.get('status') == 'ACTIVE' and not o_.get('in_liq'):
+                # a MARKET order submitted by a fill callback inside a chunk: like in the normal simulator it is executed where
+                # the rest of its minute's path is at its price (normally the position of the fill that caused it); one whose
+                # price the rest of the minute does not visit any more waits for the end of that minute
+                ch_ = chunk[o_['symbol']]
+                j_ = (int(ev['t']) - 60000 - ch_['ts0']) // 60000
+                if 0 <= j_ < ch_['n']:
+                    row_ = ch_['rows'][j_]
+                    pi_ = ch_['pi'] if j_ == ch_['cur'] else 0.0
+                    tm_ = first_occ(polyline(row_[1], row_[2], row_[3], row_[4]), o_['price'], pi_)
+                    if tm_ is None:
+                        ev['at_minute_end'] = True
+                    elif j_ == ch_['cur'] and tm_ > ch_['pi']:
+                        ch_['pi'] = tm_
+                        c('market_fills_that_moved_the_path_position')
             continue
         if k == 'match_enter':
             sym = ev['symbol']
@@ -152,6 +174,15 @@ def check(events, candles, warm, fast, aborted=False, want=('c02',)):
                             'market_fill_not_at_submission_time'
                         v(key, f"MARKET order created_at {o['created_at']} executed_at {ev['executed_at']}",
                           order=o)
+                    if not fast and sym in minute and (call or {}).get('in_match'):
+                        # the normal simulator executes a MARKET order that a fill callback submitted where the rest of the
+                        # minute's path is at the order's price (the current price of its submission). That is normally the
+                        # position of the fill; after a fill exactly at the open of the remaining candle (no earlier part: the
+                        # current price is the CLOSE of the remainder) it is further down the path - the position moves there
+                        tm = first_occ(minute[sym]['path'], o['price'], minute[sym]['pi'])
+                        if tm is not None and tm > minute[sym]['pi']:
+                            minute[sym]['pi'] = tm
+                            c('market_fills_that_moved_the_path_position')
                 continue
             # ---- a resting order was filled ----
             c('resting_fills')
@@ -310,7 +341,7 @@ def _fast_minute_end(ch, mm, pi, upto_seq, book, sym, v, c):
     t_end = ch['ts0'] + (mm + 1) * 60000
     c('fast_minute_end_evals')
     for o in book.active(sym):
-        if o['seq'] >= upto_seq or o['t'] > t_end:
+        if o['seq'] >= upto_seq or o['t'] > t_end or (o.get('at_minute_end') and o['t'] == t_end):
             continue
         if first_occ(path, o['price'], pi) is not None:
             v('fast_left_unfilled_in_minute',
